@@ -105,6 +105,31 @@ Setup makeSetup() {
   { rssem::Global g; g.type = ETy::L(); g.args = { { "a", X1 } };
     g.definition = mk(K::FuncDef, { mk(K::Arguments, { mk(K::ArgDecl, { leaf(K::Local, "a"), leaf(K::Global, "X1") }) }), mk(K::In, { leaf(K::Local, "a"), leaf(K::Global, "D1") }) });
     G["P1"] = g; s.defText["P1"] = "P1:==[a\xE2\x88\x88X1] a\xE2\x88\x88" "D1"; }
+  // callables whose BODY ROOT is itself a construct the normaliser rewrites (added after a round-8 seed); only called from curated texts
+  const Ty PX = Ty::set(Ty::tuple({ X1, X1 }));
+  auto argPairs = [&] { return mk(K::Arguments, { mk(K::ArgDecl, { leaf(K::Local, "a"), mk(K::Boolean, { mk(K::Decart, { leaf(K::Global, "X1"), leaf(K::Global, "X1") }) }) }) }); };
+  auto argSet = [&] { return mk(K::Arguments, { mk(K::ArgDecl, { leaf(K::Local, "a"), mk(K::Boolean, { leaf(K::Global, "X1") }) }) }); };
+  const Node bc = mk(K::TupleDecl, { leaf(K::Local, "b"), leaf(K::Local, "c") });
+  // F5[a∈ℬ(X1×X1)] := D{(b,c)∈a | b=c}
+  { rssem::Global g; g.type = ETy::T(PX); g.args = { { "a", PX } };
+    g.definition = mk(K::FuncDef, { argPairs(), mk(K::Declarative, { bc, leaf(K::Local, "a"), mk(K::Eq, { leaf(K::Local, "b"), leaf(K::Local, "c") }) }) });
+    G["F5"] = g; s.defText["F5"] = "F5:==[a\xE2\x88\x88\xE2\x84\xAC(X1\xC3\x97X1)] D{(b,c)\xE2\x88\x88" "a | b=c}"; }
+  // F6[a∈ℬ(X1)] := F1[a]     (a call of another function at the root)
+  { rssem::Global g; g.type = ETy::T(Ty::set(X1)); g.args = { { "a", Ty::set(X1) } };
+    g.definition = mk(K::FuncDef, { argSet(), mk(K::FuncCall, { leaf(K::Function, "F1"), leaf(K::Local, "a") }) });
+    G["F6"] = g; s.defText["F6"] = "F6:==[a\xE2\x88\x88\xE2\x84\xAC(X1)] F1[a]"; }
+  // F7[a∈ℬ(X1×X1)] := I{(b,c) | (b,c):∈a; b≠c}
+  { rssem::Global g; g.type = ETy::T(PX); g.args = { { "a", PX } };
+    g.definition = mk(K::FuncDef, { argPairs(), mk(K::Imperative, { mk(K::Tuple, { leaf(K::Local, "b"), leaf(K::Local, "c") }), mk(K::Iterate, { bc, leaf(K::Local, "a") }), mk(K::Ne, { leaf(K::Local, "b"), leaf(K::Local, "c") }) }) });
+    G["F7"] = g; s.defText["F7"] = "F7:==[a\xE2\x88\x88\xE2\x84\xAC(X1\xC3\x97X1)] I{(b,c) | (b,c):\xE2\x88\x88" "a; b\xE2\x89\xA0" "c}"; }
+  // P2[a∈ℬ(X1×X1)] := ∀(b,c)∈a b=c
+  { rssem::Global g; g.type = ETy::L(); g.args = { { "a", PX } };
+    g.definition = mk(K::FuncDef, { argPairs(), mk(K::Forall, { bc, leaf(K::Local, "a"), mk(K::Eq, { leaf(K::Local, "b"), leaf(K::Local, "c") }) }) });
+    G["P2"] = g; s.defText["P2"] = "P2:==[a\xE2\x88\x88\xE2\x84\xAC(X1\xC3\x97X1)] \xE2\x88\x80(b,c)\xE2\x88\x88" "a b=c"; }
+  // P3[a∈ℬ(X1)] := ∀b,c∈a b=c
+  { rssem::Global g; g.type = ETy::L(); g.args = { { "a", Ty::set(X1) } };
+    g.definition = mk(K::FuncDef, { argSet(), mk(K::Forall, { mk(K::EnumDecl, { leaf(K::Local, "b"), leaf(K::Local, "c") }), leaf(K::Local, "a"), mk(K::Eq, { leaf(K::Local, "b"), leaf(K::Local, "c") }) }) });
+    G["P3"] = g; s.defText["P3"] = "P3:==[a\xE2\x88\x88\xE2\x84\xAC(X1)] \xE2\x88\x80" "b,c\xE2\x88\x88" "a b=c"; }
   return s;
 }
 
@@ -384,6 +409,8 @@ std::vector<Node> curated() {
     "card({X1\xC3\x97" "D1, D1\xC3\x97X1}\xE2\x88\xAA{D{a\xE2\x88\x88X1\xC3\x97" "D1 | 1=1}})", "{D1\xC3\x97X1, X1\xC3\x97" "D1}\xE2\x8A\x86{D{a\xE2\x88\x88X1\xC3\x97" "D1 | 1=1}, D{a\xE2\x88\x88" "D1\xC3\x97X1 | 1=1}}",
     "D{a\xE2\x88\x88\xE2\x84\xAC(D1) | 1=1}\xE2\x88\x88{\xE2\x84\xAC(D1), \xE2\x84\xAC(X1\\D1)}", "card({\xE2\x84\xAC(D1), \xE2\x84\xAC(X1\\D1)}\xE2\x88\xAA{D{a\xE2\x88\x88\xE2\x84\xAC(X1\\D1) | 1=1}})",
     "{\xE2\x84\xAC(D1), \xE2\x84\xAC(X1\\D1)}\\{D{a\xE2\x88\x88\xE2\x84\xAC(D1) | 1=1}}",
+    // calls of functions whose body root is rewritten by the normaliser (tuple pattern, enumerated declaration, chained call)
+    "F5[S1]", "card(F5[S1])", "F7[S1]", "F5[S1]\xE2\x88\xAA" "F7[S1]=S1", "P2[S1]", "P2[F5[S1]]", "P3[D1]", "\xE2\x88\x80" "a\xE2\x88\x88S2 P3[a]", "F6[D1]", "F6[F6[D1]]\\D1", "D{a\xE2\x88\x88S2 | F6[a]=a & P3[a]}",
     // the same local reused in sibling scopes
     "\xE2\x88\x80" "a\xE2\x88\x88X1 a\xE2\x88\x88" "D1 & \xE2\x88\x83" "a\xE2\x88\x88X1 a\xE2\x88\x88" "D1",
     "D{a\xE2\x88\x88X1 | a\xE2\x88\x88" "D1}\xE2\x88\xAA" "D{a\xE2\x88\x88X1 | a\xE2\x88\x89" "D1}",
